@@ -1,6 +1,7 @@
 package gosym
 
 import (
+	"io/fs"
 	"crypto/sha256"
 	"fmt"
 	"go/types"
@@ -194,6 +195,16 @@ func init() {
 			}
 			return Conc(filepath.Join(parts...))
 		},
+		"path/filepath.Clean": func(c *Ctx, a []Value) Value { return Conc(filepath.Clean(c.pathArg(a[0]))) },
+		"path/filepath.Rel": func(c *Ctx, a []Value) Value {
+			rel, err := filepath.Rel(c.pathArg(a[0]), c.pathArg(a[1]))
+			if err != nil {
+				c.Unsupported("filepath.Rel fails: %v", err)
+			}
+			return Tuple{Conc(rel), Iface{}}
+		},
+		"path/filepath.ToSlash":   func(c *Ctx, a []Value) Value { return a[0] },
+		"path/filepath.FromSlash": func(c *Ctx, a []Value) Value { return a[0] },
 		"path/filepath.Dir":  func(c *Ctx, a []Value) Value { return Conc(filepath.Dir(c.pathArg(a[0]))) },
 		"path/filepath.Base": func(c *Ctx, a []Value) Value { return Conc(filepath.Base(c.pathArg(a[0]))) },
 		"path/filepath.Ext":  func(c *Ctx, a []Value) Value { return Conc(filepath.Ext(c.pathArg(a[0]))) },
@@ -941,6 +952,41 @@ type VFS struct {
 	HashOverride func(c *Ctx, content string) (Str, bool)
 	SymHash      string // digest (64 hex digits) reported for content with symbolic bytes; "" = unsupported
 	WriteErr     bool
+	// modification times: arbitrary (symbolic) instants, one variable per file and write; the only constraint is
+	// that a write does not make a file older than it was
+	MTimes map[string]*sym.Term
+	mtimeN int
+}
+
+// MTime is the modification time (seconds) of a path: an unconstrained symbolic instant within a sane range.
+func (fs *VFS) MTime(c *Ctx, n string) *sym.Term {
+	if fs.MTimes == nil {
+		fs.MTimes = map[string]*sym.Term{}
+	}
+	if t, ok := fs.MTimes[n]; ok {
+		return t
+	}
+	t := c.B.Var("mtime_"+n, 64)
+	c.S.Declare(t)
+	c.AssumeUnchecked(c.B.And(c.B.Cmp(sym.OpSLe, c.B.Int(1_000_000_000, 64), t), c.B.Cmp(sym.OpSLe, t, c.B.Int(2_000_000_000, 64))))
+	fs.MTimes[n] = t
+	return t
+}
+
+func (fs *VFS) touch(c *Ctx, n string) {
+	old, had := fs.MTimes[n]
+	fs.mtimeN++
+	t := c.B.Var(fmt.Sprintf("mtime_%s#w%d", n, fs.mtimeN), 64)
+	c.S.Declare(t)
+	lo := c.B.Int(1_000_000_000, 64)
+	if had {
+		lo = old
+	}
+	c.AssumeUnchecked(c.B.And(c.B.Cmp(sym.OpSLe, lo, t), c.B.Cmp(sym.OpSLe, t, c.B.Int(2_000_000_000, 64))))
+	if fs.MTimes == nil {
+		fs.MTimes = map[string]*sym.Term{}
+	}
+	fs.MTimes[n] = t
 }
 
 func NewVFS() *VFS {
@@ -990,6 +1036,7 @@ func (fs *VFS) Paths() []string {
 type HostFileInfo struct {
 	dir  bool
 	name string
+	path string
 }
 
 func (f *HostFileInfo) HostType() string { return "fs.FileInfo" }
@@ -999,6 +1046,27 @@ func (f *HostFileInfo) Call(c *Ctx, m string, a []Value) Value {
 		return f.dir
 	case "Name":
 		return Conc(f.name)
+	case "Mode":
+		if f.dir {
+			return int64(fs.ModeDir | 0o755)
+		}
+		return int64(0o644)
+	case "Size":
+		if s, ok := c.FS.Files[f.path]; ok {
+			if g, conc := s.Go(); conc {
+				return int64(len(g))
+			}
+		}
+	case "ModTime":
+		// a time.Time without monotonic reading: wall = 0, ext = seconds since year 1, loc = nil (UTC)
+		tp := c.E.Pkgs["time"]
+		if tp != nil && tp.Type("Time") != nil {
+			if st, ok := zero(tp.Type("Time").Type()).(Struct); ok && len(st) == 3 {
+				const unixToInternal = (1969*365 + 1969/4 - 1969/100 + 1969/400) * 86400
+				st[1] = c.B.Bin(sym.OpAdd, c.FS.MTime(c, f.path), c.B.Int(unixToInternal, 64))
+				return st
+			}
+		}
 	}
 	c.Unsupported("FileInfo.%s", m)
 	return nil
@@ -1013,10 +1081,10 @@ func intrStat(c *Ctx, a []Value) Value {
 	}
 	n := c.FS.norm(p)
 	if _, ok := c.FS.Files[n]; ok {
-		return Tuple{Iface{T: hostObjType, V: &HostFileInfo{dir: false, name: filepath.Base(n)}}, Iface{}}
+		return Tuple{Iface{T: hostObjType, V: &HostFileInfo{dir: false, name: filepath.Base(n), path: n}}, Iface{}}
 	}
 	if c.FS.Dirs[n] {
-		return Tuple{Iface{T: hostObjType, V: &HostFileInfo{dir: true, name: filepath.Base(n)}}, Iface{}}
+		return Tuple{Iface{T: hostObjType, V: &HostFileInfo{dir: true, name: filepath.Base(n), path: n}}, Iface{}}
 	}
 	return Tuple{Iface{}, notExist("stat", p)}
 }
@@ -1065,6 +1133,7 @@ func intrWriteFile(c *Ctx, a []Value) Value {
 		}
 	}
 	c.FS.Files[n] = normalize(segs)
+	c.FS.touch(c, n)
 	c.FS.Writes = append(c.FS.Writes, n)
 	return Iface{}
 }
